@@ -876,6 +876,8 @@ pub fn run(ctx: &Ctx) -> Outcome {
         let evs: Vec<String> = h.iter().map(|i| format!("{:?}", ALPHABET[*i])).collect();
         out.violation(sig.clone(), format!("history {:?}: {detail}", evs), json!({"events": h, "event_names": evs, "trace": trace}));
     }
+    let n_cross = run_crossing_disposition(&mut out);
+    out.set("crossing_disposition_cases", n_cross);
     out.set("states", st.distinct_states.max(1));
     out.set("transitions", st.distinct_transitions.max(1));
     out.set("traces_validated_against_impl", st.executions);
@@ -890,6 +892,98 @@ pub fn run(ctx: &Ctx) -> Outcome {
     out
 }
 
+/// A peer's DISPOSITION that crosses a local end.  The sender link settles second: the receiver's unsettled terminal
+/// disposition normally makes the library answer with its settling disposition.  When that disposition was sent before
+/// the peer saw the library's end it arrives after the end frame has gone out, and nothing may follow the end on the
+/// channel ("later at most one end, and nothing on its channel afterwards").
+pub async fn crossing_disposition_scenario(with_error: bool) -> (Vec<(String, String)>, Vec<String>, Option<String>) {
+    use fe2o3_amqp_types::definitions::{ReceiverSettleMode, Role};
+    use fe2o3_amqp_types::messaging::{Accepted, DeliveryState};
+    let mut fails = vec![];
+    let mut auto = Auto::default();
+    auto.max_frame_size = 4096;
+    auto.grant_credit = Some(10);
+    auto.accept_transfers = false;
+    auto.rcv_settle_mode = Some(ReceiverSettleMode::Second);
+    let mut c = match scen::open_client(auto, 4096).await {
+        Ok(c) => c,
+        Err(e) => return (fails, vec![], Some(e)),
+    };
+    let mut session = match scen::begin(&mut c, Session::builder()).await {
+        Ok(s) => s,
+        Err(e) => return (fails, vec![], Some(e)),
+    };
+    let mut sender = match drive(&mut c.peer, Sender::builder().name("s").target("q").sender_settle_mode(SenderSettleMode::Unsettled).receiver_settle_mode(ReceiverSettleMode::Second).attach(&mut session), Duration::from_secs(3)).await {
+        Some(Ok(s)) => s,
+        _ => return (fails, trace_to_strings(&c.peer.trace), Some("crossing disposition: attach failed".into())),
+    };
+    settle(&mut c.peer, 1).await;
+    let outcome = match drive(&mut c.peer, sender.send_batchable("m"), Duration::from_secs(3)).await {
+        Some(Ok(f)) => f,
+        _ => return (fails, trace_to_strings(&c.peer.trace), Some("crossing disposition: send_batchable failed".into())),
+    };
+    settle(&mut c.peer, 1).await;
+    let id = c.peer.trace.iter().rev().find_map(|w| match (w.dir, w.perf()) {
+        (Dirn::FromLib, Some(Performative::Transfer(t))) => t.delivery_id,
+        _ => None,
+    });
+    let Some(id) = id else {
+        return (fails, trace_to_strings(&c.peer.trace), Some("crossing disposition: no transfer on the wire".into()));
+    };
+    // the application ends the session; the peer withholds its end
+    c.peer.auto.end = false;
+    let task = tokio::spawn(async move {
+        let r = if with_error { session.end_with_error(peer_err("local")).await } else { session.end().await };
+        (r.map_err(|e| e.to_string()), session)
+    });
+    settle(&mut c.peer, 2).await;
+    let end_at = c.peer.trace.iter().position(|w| w.dir == Dirn::FromLib && matches!(w.perf(), Some(Performative::End(_))));
+    let Some(end_at) = end_at else {
+        return (fails, trace_to_strings(&c.peer.trace), Some("crossing disposition: the library did not send its end".into()));
+    };
+    // the disposition the peer had sent before it saw that end
+    c.peer.send(0, Performative::Disposition(Disposition { role: Role::Receiver, first: id, last: None, settled: false, state: Some(DeliveryState::Accepted(Accepted {})), batchable: false }));
+    settle(&mut c.peer, 3).await;
+    let after: Vec<String> = c.peer.trace[end_at + 1..].iter().filter(|w| w.dir == Dirn::FromLib && w.channel == 0 && !matches!(w.body, Body::Empty)).map(|w| w.short()).collect();
+    if !after.is_empty() {
+        fails.push((
+            "frame-after-end (a disposition crossed the end)".to_string(),
+            format!("sender link settling second, one unsettled delivery; session.{}() sent the end; the peer's unsettled accepted disposition, sent before it saw the end, was answered on the ended channel: {:?}", if with_error { "end_with_error" } else { "end" }, after),
+        ));
+    }
+    // the peer now answers the end: the call returns
+    c.peer.send(0, Performative::End(End { error: None }));
+    settle(&mut c.peer, 3).await;
+    if !task.is_finished() {
+        fails.push(("end-hangs".to_string(), "end() did not return although the peer's end had arrived (after a crossing disposition)".to_string()));
+        task.abort();
+    }
+    drop(outcome);
+    drop(sender);
+    (fails, trace_to_strings(&c.peer.trace), None)
+}
+
+fn run_crossing_disposition(out: &mut Outcome) -> u64 {
+    let mut n = 0;
+    for with_error in [false, true] {
+        let scen: Scenario<(Vec<(String, String)>, Vec<String>, Option<String>)> = Arc::new(move || Box::pin(crossing_disposition_scenario(with_error)));
+        let ex = run_exec(vec![], &RunCfg::none(), &scen);
+        n += 1;
+        match ex.out {
+            Some((fails, trace, mach)) => {
+                if let Some(m) = mach {
+                    out.machinery_errors.push(m);
+                }
+                for (s, d) in fails {
+                    out.violation(s, d, json!({"kind": "crossing-disposition", "with_error": with_error, "trace": trace}));
+                }
+            }
+            None => out.machinery_errors.push(format!("crossing disposition scenario died: {:?}", ex.panics)),
+        }
+    }
+    n
+}
+
 /// the peer has written its end on channel 0
 fn peer_sent_end(trace: &[WFrame]) -> bool {
     trace.iter().any(|w| w.dir == Dirn::FromPeer && matches!(&w.body, Body::Perf(Performative::End(_))))
@@ -899,6 +993,25 @@ fn replay(p: &std::path::Path, mut out: Outcome) -> Outcome {
     let s = std::fs::read_to_string(p).unwrap_or_default();
     let j: serde_json::Value = serde_json::from_str(&s).unwrap_or_default();
     let r = &j["replay"];
+    if r["kind"] == "crossing-disposition" {
+        let we = r["with_error"].as_bool().unwrap_or(false);
+        let scen: Scenario<(Vec<(String, String)>, Vec<String>, Option<String>)> = Arc::new(move || Box::pin(crossing_disposition_scenario(we)));
+        let ex = run_exec(vec![], &RunCfg::none(), &scen);
+        if let Some((fails, trace, _)) = ex.out {
+            for l in &trace {
+                println!("  {l}");
+            }
+            for (s, d) in fails {
+                println!("  FAIL {s}: {d}");
+                out.violation(s, d, r.clone());
+            }
+        }
+        out.set("states", 1);
+        out.set("transitions", 1);
+        out.set("traces_validated_against_impl", 1);
+        out.set("samples", json!([r]));
+        return out;
+    }
     let evs: Vec<Ev> = r["events"].as_array().map(|a| a.iter().filter_map(|v| v.as_u64()).map(|i| ALPHABET[i as usize]).collect()).unwrap_or_default();
     println!("replaying {:?}", evs);
     let (o, _, _) = run_history(evs);
